@@ -258,8 +258,15 @@ def _parse_output(job, text, rc, err):
     job.failed = [(r.get('property'), r.get('description'), r.get('trace', []),
                    r.get('sourceLocation', {})) for r in real_fails]
     job.unwind_failed = [(r.get('property'), r.get('description'), r.get('trace', [])) for r in unwind_fails]
+    undecided = [r for r in results if r.get('status') not in ('SUCCESS', 'FAILURE')]
+    job.stats['undecided'] = len(undecided)
     if real_fails:
         job.status = 'failed'
+    elif undecided:
+        # e.g. status ERROR after "SAT checker ran out of memory": no verdict
+        job.status = 'inconclusive'
+        why = '; '.join(job.stats.get('errors', []))[:200]
+        job.reason = '%d properties without verdict (%s)' % (len(undecided), why or undecided[0].get('status'))
     elif unwind_fails:
         job.status = 'inconclusive'
         job.reason = 'unwinding bound too small: ' + ', '.join(r.get('property', '') for r in unwind_fails)
